@@ -59,6 +59,54 @@ def run(tier, seed, replay=None):
                 for w, obs, _, _ in sel:
                     model_cases.append((f"engine_obs3 {G.to_coq(e)} {coq_list(z(x) for x in w)}", obs[:3],
                                         {"pattern": G.show(e), "word": list(w)}))
+    # ---- the first compile of a FRESH process (state numbers start at 1, one and two digits mixed) must agree with the same
+    #      search made later (seeded change C13-19: subset keys joined without a separator)
+    import json
+    import os
+    import subprocess
+    from common import REPO, NPROC as _NP
+
+    def tup(x):
+        return tuple(tup(y) for y in x) if isinstance(x, list) else x
+    fresh = [tup(e) for e in ([["P", [["A", 1]]], ["A", 2], ["S", [["A", 1]]], ["A", 2]], [["P", [["A", 1]]], ["A", 2], ["A", 3], ["A", 1], ["A", 2]],
+                              [["A", 1], ["O", [["A", 2]]], ["P", [["A", 3]]], ["A", 1], ["A", 2], ["A", 3]])]
+    while len(fresh) < (30 if tier == "quick" else 400):
+        fresh.append(G.random_expr(chk.rng, chk.rng.randint(5, 14)))
+    env = dict(os.environ, PYTHONPATH=REPO, VERIF_REPO=REPO, PYTHONDONTWRITEBYTECODE="1")
+    pending = []
+    for e in fresh:
+        ws = [tuple(chk.rng.choice([1, 2, 3]) for _ in range(chk.rng.randint(0, 8))) for _ in range(40)]
+        ws = [w for w in ws if G.spec_match(e, w)][:3] + ws[:3]
+        if e == fresh[0]:
+            ws = [(1, 2, 2), (1, 1, 2, 1, 2)] + ws
+        p = subprocess.Popen(["/venv/bin/python", os.path.join(os.path.dirname(os.path.abspath(__file__)), "gsm_worker.py")],
+                             stdin=subprocess.PIPE, stdout=subprocess.PIPE, stderr=subprocess.PIPE, text=True, env=env)
+        p.stdin.write(json.dumps({"expr": e, "words": ws}))
+        p.stdin.close()
+        pending.append((e, ws, p))
+        if len(pending) >= _NP or e is fresh[-1]:
+            for e2, ws2, p2 in pending:
+                out = p2.stdout.read()
+                p2.wait()
+                chk.evaluations += 1
+                chk.count("first compile of a fresh process")
+                try:
+                    got = json.loads(out)
+                except ValueError:
+                    chk.violation({"pattern": G.show(e2)}, f"the pattern worker failed on {G.show(e2)}: {p2.stderr.read()[-200:]}")
+                    continue
+                for k2, w in enumerate(ws2):
+                    sm, sp = G.spec_match(e2, w), G.spec_shortest_prefix(e2, w)
+                    want = [[0, sm], [0, sm], [0, [] if sp is None else [sp]]]
+                    bad = [which for which in ("first", "second") if got[which][k2][:3] != want]
+                    if bad:
+                        chk.violation({"pattern": G.show(e2), "expr": e2, "word": list(w)},
+                                      f"{G.show(e2)} on {list(w)}: the {bad[0]} search of a fresh process gives match / nfa_match / starts_with = "
+                                      f"{got[bad[0]][k2][:3]}, the language says {want}")
+                        break
+                else:
+                    chk.nontrivial.add(("fresh", G.show(e2)))
+            pending = []
     # ---- symbols of mixed types that print alike (1 and "1", 1.5 and "1.5") or whose hashes collide (-1 and -2, 0 and
     #      2**61-1): distinct symbols must stay distinct
     from codelimit.common.gsm import matcher
